@@ -430,6 +430,28 @@ def run(ctx):
         r12.check(len(pj) == 1 and len(pj[0].args) == 2 and isinstance(pj[0].args[1], ast.Name) and pj[0].args[1].id == "path" or n_scratch > 0 and len(pj) == 1, "SurveyElement.json_dump:target",
                   "the dump is printed to the caller's path (or to a scratch file judged above)", jd.loc())
     rules.append(r12)
+    # loading a dumped form by path gives back the document that was dumped: the loader adds / renames nothing
+    r13 = Rule("C16", "C16.R13", "a JSON form loaded by path is the dumped document, unchanged", floor=3,
+               necessary="a loader that edits the document (a root renamed after the file) changes every path of the reloaded XForm")
+    lf = repo.find_func("pyxform.file_utils:load_file_to_dict")
+    if lf is None:
+        r13.note("pyxform.file_utils.load_file_to_dict not found")
+        r13.floor = 0
+    else:
+        import copy as _cp
+        for desc_, doc_ in (("form named by the converter's placeholder", {"type": "survey", "name": "data", "id_string": "hh", "title": "HH", "children": [{"type": "text", "name": "q"}]}),
+                            ("form with its own name", {"type": "survey", "name": "census", "children": []}), ("a section that is not a survey", {"type": "group", "name": "data", "children": []})):
+            for path_ in ("backup_2024.json", "dir/data.json", "census.json"):
+                doc_in = _cp.deepcopy(doc_)
+                itl = ctx.interp("C16.R13", hooks={"fnname:get_pyobj_from_json": lambda i, a, k, n, doc_in=doc_in: doc_in}, inline=lambda fi: True)
+                itl.reset([])
+                try:
+                    out_ = itl.call_function(lf, [path_], {}, None, lf.node)
+                    sec_ = out_[1] if isinstance(out_, tuple) and len(out_) == 2 else out_
+                except Raised as e:
+                    sec_ = f"raises {e.exc_name}{e.exc_args}"
+                r13.check(sec_ == doc_, f"load_file_to_dict[{desc_}; {path_}]", "returns the document as it is in the file", lf.loc(), why_fail=repr(sec_)[:160])
+    rules.append(r13)
     return rules
 
 
@@ -498,6 +520,17 @@ def _dump_completeness_rule(ctx):
         except Raised as e:
             got = f"raises {e.exc_name}{e.exc_args}"
         r.check(got == want, f"to_json_dict[{desc}]", "the dump lists every child, in order", tjx.loc(), why_fail=f"children in the dump: {got!r}")
+    # ... and the constructor reads the tags back from where the dump (`children`) and the workbook form (`tags`) put them
+    from ..interp import ClassVal as _CV
+    for key_ in ("children", "tags"):
+        itc_ = ctx.interp("C16.R10", inline=lambda fi: True)
+        itc_.reset([])
+        try:
+            o_ = itc_.call(_CV(ocls), [], {"name": "o", "type": "osm", "label": "O", key_: [{"name": "building", "label": "Building"}, {"name": "levels", "label": "Levels"}]}, ocls.node)
+            got_ = [getattr(c_, "name", None) if not isinstance(c_, Obj) else c_.attrs.get("name") for c_ in (o_.attrs.get("children") or ())]
+        except Raised as e:
+            got_ = f"raises {e.exc_name}{e.exc_args}"
+        r.check(got_ == ["building", "levels"], f"OsmUploadQuestion(**dump)[tags under `{key_}`]", "the rebuilt question has its tags", ocls.methods["__init__"].loc() if "__init__" in ocls.methods else ocls.module.relpath, why_fail=repr(got_))
     # what a section leaves out of ITS OWN dump (a group's bind: recorded finding) is not left out of its descendants':
     # a repeat with logic inside a group, a question whose type has no bind template inside a group, two levels down
     rcls = repo.cls("pyxform.section:RepeatingSection")
